@@ -350,7 +350,7 @@ def generated_code_half(ctx, cov, assumptions):
     for k in range(12 if ctx.tier == "quick" else 200):
         open(os.path.join(gdir, "gen_%d_%d.nano" % (ctx.seed, k)), "w").write(_pretty(_Gen(ctx.seed * 7000003 + k).program()))
     for k in range(6 if ctx.tier == "quick" else 80):
-        open(os.path.join(gdir, "genmap_%d_%d.nano" % (ctx.seed, k)), "w").write(_pretty(_Gen(ctx.seed * 7000003 + 500000 + k, features={"maps": True}).program()))
+        open(os.path.join(gdir, "genmap_%d_%d.nano" % (ctx.seed, k)), "w").write(_pretty(_Gen(ctx.seed * 7000003 + 500000 + k, features={"maps": True, "fnvals": k % 2 == 1}).program()))
     n_hand = len(progs)
     progs += sorted(glob.glob(os.path.join(gdir, "*.nano")))
     logf = os.path.join(ctx.scratch, "nano_cc.log")
